@@ -4,6 +4,7 @@ import (
 	"fmt"
 	"os"
 	"path/filepath"
+	"sync"
 	"sync/atomic"
 
 	"google.golang.org/protobuf/proto"
@@ -18,16 +19,28 @@ import (
 // the imported modules must be those of the package on its own.
 
 var readerRuns int64
-var scratchBase = func() string {
-	for _, d := range []string{"/dev/shm", os.TempDir()} {
-		if p, err := os.MkdirTemp(d, "verif-c06-"); err == nil {
-			return p
-		}
-	}
-	panic("no scratch directory")
-}()
+var scratchOnce sync.Once
+var scratchDir string
 
-func cleanupScratch() { os.RemoveAll(scratchBase) }
+// scratchBase is created on first use only (every check runs in the same binary).
+func scratchBase() string {
+	scratchOnce.Do(func() {
+		for _, d := range []string{"/dev/shm", os.TempDir()} {
+			if p, err := os.MkdirTemp(d, "verif-c06-"); err == nil {
+				scratchDir = p
+				return
+			}
+		}
+		panic("no scratch directory")
+	})
+	return scratchDir
+}
+
+func cleanupScratch() {
+	if scratchDir != "" {
+		os.RemoveAll(scratchDir)
+	}
+}
 
 // spread gives the module list nb binaries with different contents, module i running from binary (i*step+off) % nb.
 func spread(mods *pbsubstreams.Modules, nb, step, off int) *pbsubstreams.Modules {
@@ -65,7 +78,7 @@ modules:
 // importThroughReader returns the merged module list and the prefix under which the package's modules appear.
 func importThroughReader(mods *pbsubstreams.Modules, depth int) (*pbsubstreams.Modules, string, error) {
 	atomic.AddInt64(&readerRuns, 1)
-	dir, err := os.MkdirTemp(scratchBase, "imp")
+	dir, err := os.MkdirTemp(scratchBase(), "imp")
 	if err != nil {
 		return nil, "", err
 	}
